@@ -529,6 +529,33 @@ FIXED = [
 ]
 
 
+# numeric tokens written with NON-ASCII digits: str.isdigit() accepts all four, int() only the decimal one (Arabic-Indic
+# three); a reader that tests isdigit() before int() leaks ValueError on the others (repaired: isdecimal()).  Outside
+# the models' ASCII tables, so these go through the oracle only (outcome class: Ok / DataParseError, no ValueError).
+NON_ASCII_DIGITS = ["\u00b2", "\u00b3", "\u2460", "\u0663"]
+
+
+def non_ascii_digit_cases():
+    out = []
+    for d in NON_ASCII_DIGITS:
+        docs = [
+            ("taxa-ntax", "#NEXUS\nBEGIN TAXA;\nDIMENSIONS NTAX=%s;\nTAXLABELS A B C;\nEND;\n" % d),
+            ("data-ntax", "#NEXUS\nBEGIN DATA;\nDIMENSIONS NTAX=%s NCHAR=3;\nFORMAT DATATYPE=DNA;\nMATRIX\nA ACG\nB ACG\nC ACG\n;\nEND;\n" % d),
+            ("nchar", "#NEXUS\nBEGIN TAXA;\nDIMENSIONS NTAX=2;\nTAXLABELS A B;\nEND;\nBEGIN CHARACTERS;\nDIMENSIONS NCHAR=%s;\n"
+                      "FORMAT DATATYPE=DNA;\nMATRIX\nA ACG\nB ACG\n;\nEND;\n" % d),
+            ("nchar-mixed", TAXA2 + CHARS2.replace("NCHAR=4", "NCHAR=1%s" % d)),
+        ]
+        for what, pos in (("charset-position", "%s"), ("charset-range-end", "1-%s"), ("charset-range-start", "%s-4"),
+                          ("charset-step", "1-4\\%s"), ("charset-second", "1 %s")):
+            docs.append((what, TAXA2 + CHARS2 + "BEGIN SETS;\nCHARSET x = %s;\nEND;\n" % (pos % d)))
+        for what, text in docs:
+            out.append(("nexus", text, "non-ascii-digit:%s:U+%04X" % (what, ord(d))))
+    return out
+
+
+FIXED.extend(non_ascii_digit_cases())
+
+
 # witness document of every recorded (unrepaired) defect site of the NEXUS skeleton, with the test that tells
 # that the site is still in its unrepaired form
 _CH = "BEGIN CHARACTERS;\nDIMENSIONS NCHAR=%d;\nFORMAT %s;\nMATRIX\n%s;\nEND;\n"
